@@ -40,9 +40,9 @@ type Q { _e(f: _Filter): _Entity u: _U s: _Scope t1: T1 n: _Node }
 schema { query: Q }
 """
 DEPR_SDL = r"""
-enum E { A B @deprecated C @deprecated(reason: "no C") D @deprecated(reason: "obsolète\n\"utiliser\" A ☃ \\o/") }
+enum E { A B @deprecated C @deprecated(reason: "no C") D @deprecated(reason: "obsolète\n\"utiliser\" A ☃ \\o/") F @deprecated(reason: "") G @deprecated(reason: null) }
 interface I { x: Int old: Int @deprecated }
-type T implements I { x: Int old: Int @deprecated(reason: "gone") e: E hidden: Int @nonIntrospectable }
+type T implements I { x: Int old: Int @deprecated(reason: "gone") e: E hidden: Int @nonIntrospectable blank: Int @deprecated(reason: "") none: Int @deprecated(reason: null) }
 union U = T
 input In { a: Int = 3 b: [String!] = ["x", "déjà \"vu\"", "naïve\nligne\t日本"] c: E = B d: In s: String = "café \\ \"q\" €" }
 type Query { t(i: In = {a: 1}, n: Int = null): T u: U i: I secret: String @nonIntrospectable }
